@@ -95,6 +95,13 @@ def gen_field(kind, lv, f, idx, centres, seed=0):
         z = np.zeros(shape)
         z[(idx[0] + idx[1]) % 2 == 1] = -0.0
         return z
+    if kind == 'huge':
+        # finite values beyond the single-precision range, both signs, no infinities
+        v = coded(lv, f, idx, seed) * 1e300 / 4194304.0
+        s_ = idx[0]
+        for a in idx[1:]:
+            s_ = s_ + a
+        return np.broadcast_to(np.where(s_ % 2 == 0, v, -v), shape).copy()
     if kind == 'decay':
         # sign-alternating values whose magnitude DEcreases with the level: the coarsest level holds the extrema
         v = coded(0, f, idx, seed) / (16.0 ** lv)
